@@ -7,7 +7,7 @@ P1 == {1}
 P12 == {1, 2}
 Ops12 == {1, 2}
 Ops012 == {0, 1, 2}
-TputNone == {0}
-TputOnly == {7}
-TputBoth == {0, 7}
+TputNone == {-1}
+TputOnly == {0, 7}
+TputBoth == {-1, 0, 7}
 ====
